@@ -59,6 +59,9 @@ func spawn(self string, chk *Check, tier string, seed int64, shard, n int, outfi
 	}
 	cmd := exec.Command("sh", "-c", fmt.Sprintf("ulimit -v %d; exec %s", mem, strings.Join(quoted, " ")))
 	cmd.Env = append(os.Environ(), "GOMAXPROCS=2", "GOTRACEBACK=single")
+	if strings.HasSuffix(self, "-race") {
+		cmd.Env = append(cmd.Env, "GORACE=log_path="+outfile+".racelog halt_on_error=0 exitcode=0", "VERIF_RACE_LOG="+outfile+".racelog")
+	}
 	cmd.Stdout = os.Stderr
 	pr, err := cmd.StderrPipe()
 	if err != nil {
